@@ -94,6 +94,54 @@ def probe_invariance(name, D, N, order, seed):
     return {"ok": not bad, "bad": bad, "all": res}
 
 
+def probe_forced_invariance(D, seed, constant=True):
+    """steppers with an auxiliary input (ForcedStepper) through rollout / repeat, jit and vmap: scanned = eager loop,
+    rollout(vmap(s)) = vmap(rollout(s)) with axes exchanged, a member depends only on its own forcing — for a
+    multi-channel state (leading aux axis > 1) and for batched members with DIFFERENT forcings"""
+    import equinox as eqx
+    import jax
+    import jax.numpy as jnp
+    import exponax as ex
+    rng = np.random.default_rng(seed)
+    N = {1: 10, 2: 6, 3: 5}[D]
+    C = D if D > 1 else 1
+    inner = ex.stepper.Burgers(D, 2.0, N, 0.05, diffusivity=0.03) if D > 1 else ex.stepper.KortewegDeVries(1, 6.0, N, 0.01)
+    fs = ex.ForcedStepper(inner)
+    n, B = 3, 3
+    u0 = rng.normal(size=(B, C) + (N,) * D) * 0.3
+    f = rng.normal(size=((B, C) if constant else (B, n, C)) + (N,) * D) * 0.5
+    ju, jf = jnp.asarray(u0), jnp.asarray(f)
+
+    def eager(b):
+        cur, out = ju[b], []
+        for t in range(n):
+            cur = fs(cur, jf[b] if constant else jf[b, t])
+            out.append(np.asarray(cur))
+        return np.stack(out)
+    ref = np.stack([eager(b) for b in range(B)])                     # (B, n, C, ...)
+    res = {}
+    ro = ex.rollout(fs, n, takes_aux=True, constant_aux=constant)
+    rp = ex.repeat(fs, n, takes_aux=True, constant_aux=constant)
+    res["rollout_vs_loop"] = float(np.max(np.abs(np.asarray(ro(ju[0], jf[0])) - ref[0])))
+    res["jit_rollout_vs_loop"] = float(np.max(np.abs(np.asarray(eqx.filter_jit(ro)(ju[1], jf[1])) - ref[1])))
+    res["repeat_vs_loop"] = float(np.max(np.abs(np.asarray(rp(ju[2], jf[2])) - ref[2, -1])))
+    res["vmap_rollout_vs_loop"] = float(np.max(np.abs(np.asarray(jax.vmap(ro)(ju, jf)) - ref)))
+    # rolling out the mapped stepper: the aux of the scan is (n, B, ...) when it is consumed in order
+    vfs = jax.vmap(fs)
+    aux_b = jf if constant else jnp.swapaxes(jf, 0, 1)
+    rb = np.asarray(ex.rollout(vfs, n, takes_aux=True, constant_aux=constant)(ju, aux_b))      # (n, B, ...)
+    res["rollout_vmap_exchange"] = float(np.max(np.abs(np.swapaxes(rb, 0, 1) - ref)))
+    res["repeat_vmap_vs_loop"] = float(np.max(np.abs(np.asarray(ex.repeat(vfs, n, takes_aux=True, constant_aux=constant)(ju, aux_b)) - ref[:, -1])))
+    f2 = np.array(f)
+    f2[B - 1] = f2[B - 1] * 2.0 + 0.1
+    aux_b2 = jnp.asarray(f2) if constant else jnp.swapaxes(jnp.asarray(f2), 0, 1)
+    rb2 = np.asarray(ex.rollout(vfs, n, takes_aux=True, constant_aux=constant)(ju, aux_b2))
+    res["member_independent_of_other_forcing"] = float(np.max(np.abs(rb2[:, 0] - rb[:, 0])))
+    tol = 1e-10 * (float(np.max(np.abs(ref))) + 1e-300)
+    bad = {k: v for k, v in res.items() if not v <= tol}
+    return {"ok": not bad, "bad": bad, "all": res}
+
+
 def probe_ctor_sweep(case, seed):
     """eqx.filter_vmap over constructor parameters vs one-at-a-time construction"""
     import equinox as eqx
@@ -154,7 +202,7 @@ def sweepable_params(spec):
     return out
 
 
-def probe_generic_sweep(name, D, N, order, seed, param, index=None):
+def probe_generic_sweep(name, D, N, order, seed, param, index=None, values=None):
     """eqx.filter_vmap over ONE float constructor argument (traced) vs building the steppers one at a time with Python
     floats — for any stepper class of the registry and any of its float arguments"""
     import equinox as eqx
@@ -163,8 +211,11 @@ def probe_generic_sweep(name, D, N, order, seed, param, index=None):
     spec = S.registry()[name](rng, D, N, order)
     if spec is None:
         return {"ok": True, "skipped": "dimension"}
-    base = spec.kwargs[param] if index is None else spec.kwargs[param][index]
-    vals = [base * f if base != 0 else f - 1.0 for f in (0.6, 1.0, 1.5)]
+    if values is not None:
+        vals = [float(v) for v in values]     # an argument the registry leaves at its default (dealiasing_fraction, ...)
+    else:
+        base = spec.kwargs[param] if index is None else spec.kwargs[param][index]
+        vals = [base * f if base != 0 else f - 1.0 for f in (0.6, 1.0, 1.5)]
 
     def mk(p):
         kw = dict(spec.kwargs)
@@ -223,6 +274,14 @@ def oracle(ctx, deep):
             for k in r["bad"]:
                 fails.append({"key": f"C06:{k}:{name}", "what": f"{name} (D={D}, order={order}): '{k}' differs from the eager one-at-a-time evaluation by {r['bad'][k]:.2e}",
                               "probe": "invariance", "args": {"name": name, "D": D, "N": N, "order": order, "seed": ctx.seed + idx}, "observed": r})
+    for D in (1, 2) if not deep else (1, 2, 3):
+        for constant in (True, False):
+            r = probe_forced_invariance(D, ctx.seed + D, constant)
+            ctx.count(("oracle_forced_invariance", D, constant))
+            if not r["ok"]:
+                for k in r["bad"]:
+                    fails.append({"key": f"C06:forced:{k}", "what": f"ForcedStepper through rollout/repeat (D={D}, constant_aux={constant}): '{k}' differs from the eager one-at-a-time loop by {r['bad'][k]:.2e}",
+                                  "probe": "forced_invariance", "args": {"D": D, "seed": ctx.seed + D, "constant": constant}, "observed": r})
     for case in SWEEPS:
         r = probe_ctor_sweep(case, ctx.seed)
         ctx.count(("oracle_sweep", case))
@@ -251,6 +310,31 @@ def oracle(ctx, deep):
             if not r["ok"]:
                 fails.append({"key": f"C06:param-sweep:{name}.{param}", "what": f"filter_vmap over {name}({param}{'' if index is None else '[' + str(index) + ']'}=...) differs from building the steppers one at a time: {r}"[:400],
                               "probe": "generic_sweep", "args": {"name": name, "D": D, "N": N, "order": order, "seed": ctx.seed + idx, "param": param, "index": index}, "observed": r})
+    # arguments every nonlinear stepper forwards but the registry leaves at their defaults, over their whole admissible
+    # range (a dealiasing fraction above 1 keeps every mode; a clip or branch applied to concrete values only would
+    # make the traced construction differ): quick = a seed-dependent quarter + three fixed classes, deep = all
+    import inspect
+    COMMON = {"dealiasing_fraction": (0.5, 2 / 3, 1.0, 1.25, 2.0), "circle_radius": (0.5, 1.0, 2.0)}
+    for idx, name in enumerate(names):
+        if name in S.LINEAR:
+            continue
+        D = 2 if "Vorticity" in name else (3 if "Velocity" in name else (idx % 2) + 1)
+        N = {1: 10, 2: 6, 3: 5}[D]
+        order = (idx % 4) + 1
+        spec0 = R[name](np.random.default_rng(ctx.seed + idx), D, N, order)
+        if spec0 is None:
+            continue
+        sig = inspect.signature(spec0.cls.__init__).parameters
+        for param, values in COMMON.items():
+            if param not in sig or param in spec0.kwargs:
+                continue
+            if not deep and (idx + ctx.seed) % 4 != 0 and name not in ("Burgers", "GeneralNonlinearStepper", "KuramotoSivashinsky"):
+                continue
+            r = probe_generic_sweep(name, D, N, order, ctx.seed + idx, param, None, list(values))
+            ctx.count(("oracle_param_sweep", name, param, "common"))
+            if not r["ok"]:
+                fails.append({"key": f"C06:param-sweep:{name}.{param}", "what": f"filter_vmap over {name}({param}=...) differs from building the steppers one at a time: {r}"[:400],
+                              "probe": "generic_sweep", "args": {"name": name, "D": D, "N": N, "order": order, "seed": ctx.seed + idx, "param": param, "index": None, "values": list(values)}, "observed": r})
     seen, out = set(), []
     for f in fails:
         if f["key"] not in seen:
@@ -260,4 +344,5 @@ def oracle(ctx, deep):
 
 
 def replay(probe, args):
-    return {"invariance": probe_invariance, "ctor_sweep": probe_ctor_sweep, "generic_sweep": probe_generic_sweep}[probe](**args)
+    return {"invariance": probe_invariance, "ctor_sweep": probe_ctor_sweep, "generic_sweep": probe_generic_sweep,
+            "forced_invariance": probe_forced_invariance}[probe](**args)
